@@ -52,6 +52,53 @@ func genFrag(h *H) {
 		h.tag("pr-plan:" + plan)
 		h.Run(Case{Op: "pr_sched", A: map[string]string{"segs": segsStr(segs), "final": final, "sizes": sizesStr(h.rng, len(txt)+8), "lim": strconv.Itoa(1 + h.rng.Intn(12))}})
 	}
+	// the streaming base-X decoder, call by call: genuine encodings (with skip characters for the
+	// skipping variants), truncations, extra/foreign characters, under every fragmentation plan, caller
+	// buffers from 1 byte to several blocks, sources ending with EOF or an error (alone or with data)
+	nb := n
+	for i := 0; i < nb; i++ {
+		e := encs[h.rng.Intn(len(encs))]
+		data := h.rng.Bytes(h.rng.Intn(3*e.ibl + 2))
+		if i%5 == 0 {
+			data = h.rng.Bytes(e.ibl * (1 + h.rng.Intn(3)))
+		}
+		txt := []byte(e.enc.EncodeToString(data))
+		switch h.rng.Intn(8) {
+		case 0:
+			if len(txt) > 0 {
+				txt = txt[:h.rng.Intn(len(txt))]
+			}
+		case 1:
+			txt = append(txt, e.alphabet[len(e.alphabet)-1], e.alphabet[len(e.alphabet)-1])
+		case 2:
+			if len(txt) > 0 {
+				p := h.rng.Intn(len(txt))
+				txt = append(txt[:p:p], append([]byte{'!'}, txt[p:]...)...)
+			}
+		}
+		if e.skip != "" && len(txt) > 0 {
+			for k := h.rng.Intn(4); k > 0; k-- {
+				p := h.rng.Intn(len(txt) + 1)
+				ins := [][]byte{{' '}, {'\n'}, {'\r', '\n'}, {' ', ' ', ' '}, {'>', ' '}}[h.rng.Intn(5)]
+				txt = append(txt[:p:p], append(append([]byte{}, ins...), txt[p:]...)...)
+			}
+		}
+		plan := fragPlans[h.rng.Intn(len(fragPlans))]
+		segs, _ := fragment(h.rng, txt, plan)
+		final := "EOF"
+		if h.rng.Intn(5) == 0 {
+			final = "IO"
+		}
+		if h.rng.Intn(8) == 0 && len(segs) > 0 {
+			segs[h.rng.Intn(len(segs))].err = errOfName([]string{"EOF", "IO"}[h.rng.Intn(2)])
+		}
+		var sz []string
+		for k := 0; k < 12+len(txt); k++ {
+			sz = append(sz, strconv.Itoa([]int{1, 2, 5, e.ibl - 1, e.ibl, e.ibl + 1, 2 * e.ibl, 64, 100, 4096}[h.rng.Intn(10)]))
+		}
+		h.tag("bxd-plan:" + plan)
+		h.Run(Case{Op: "bxd_sched", A: map[string]string{"enc": e.name, "segs": segsStr(segs), "final": final, "sizes": strings.Join(sz, ",")}})
+	}
 	// sentences around the 8192-byte limit with aligned and unaligned fragmentations
 	for _, l := range []int{8190, 8191, 8192, 8193, 8200, 9000, 12000, 12300} {
 		txt := append(bytes.Repeat([]byte{' '}, l), []byte(".rest")...)
